@@ -245,7 +245,12 @@ def run(ctx):
     alphabet = sorted(set(names + EXTRA_LEXEMES) - {"END_OF_FILE", "NEWLINE", "ERROR"})
     ctx.extra["token_alphabet"] = len(alphabet)
 
-    lines = [l for l in vlib.corpus_lines("C03")]
+    lines = []
+    for l in vlib.corpus_lines("C03"):
+        f = l.split("\t")
+        if f[:2] == ["rx", "tr"] and len(f) == 4:
+            l += "\t" + LC.letters_hex(bytes.fromhex(f[3].replace("-", "")))
+        lines.append(l)
     origin = ["regression"] * len(lines)
 
     def add(stages, b, o):
@@ -302,8 +307,10 @@ def run(ctx):
         mutp.append(p)
     rx_quick = rng.sample(allp, min(len(allp), ctx.n(250, 10 ** 9))) + mutp
     for p in rx_quick:
+        pb = p.encode("utf-8", "surrogatepass")
+        lt = LC.letters_hex(pb)
         for fl in range(64):
-            lines.append("rx\ttr\t%d\t%s" % (fl, hx(p)))
+            lines.append("rx\ttr\t%d\t%s\t%s" % (fl, hx(pb), lt))
             origin.append("regex")
 
     impl = run_parallel(lines)
@@ -326,6 +333,23 @@ def run(ctx):
             ctx.stat("crash")
             if s not in sites or len(ln) < len(sites[s][0]):
                 sites[s] = (ln, a, idx)
+    # the Lean port of the regex lexer + parser + transpiler must give the same answer on every regex line
+    rx_idx = [i for i, l in enumerate(lines) if l.startswith("rx\ttr\t") and not bad(impl[i])]
+    rx_model = vlib.run_model([lines[i] for i in rx_idx]) if rx_idx else []
+    port_ok, shown = True, 0
+    for i, m in zip(rx_idx, rx_model):
+        if m.startswith("bad-"):
+            raise RuntimeError("model rejected " + lines[i])
+        if m == "stuck":
+            ctx.stat("port:stuck")
+        if m != impl[i]:
+            port_ok = False
+            if shown < 3:
+                shown += 1
+                ctx.violation("model-impl-disagree", {"line": lines[i], "correspondence": "regex front end port"},
+                              f"impl={impl[i][:200]!r} model={m[:200]!r}", no_input=True)
+    ctx.obligation(f"regex front end: Lean port (lexer, parser, transpiler) = regex.Parse/Transpile on {len(rx_idx)} "
+                   f"(pattern, flags) pairs, malformed patterns included", port_ok, "correspondence")
     unknown = 0
     for s, (ln, a, idx) in sorted(sites.items())[:12]:
         m = minimise(ln, s, prefix=lines[idx - idx % BATCH:idx])
